@@ -517,14 +517,108 @@ def rule_comment_lexer(ck, facts, tier="quick", R="C13.comment-lexer"):
         ck.bad(R, "extent|%s" % f.short.split("::")[-1], "%s: on the text %r the comment combinators consume %s but a comment token there is %s: comment tokens no longer end where the comment ends (the rest of the line / file is swallowed or the `/*` does not lex at all), so adding or editing a comment changes the program" % (f.short, s, "nothing (no match)" if m is None else "%d characters" % m, "no comment" if sp is None else "%d characters long" % sp), f.where())
 
 
+def lexer_model(facts):
+    """(function, PEG tree of the whole lexer) extracted from the expression handed to `.parse(source)`"""
+    from ..rules import tokmodel
+
+    lang = facts.crate(roles.LANG)
+    out = []
+    for f in lang.fns:
+        if "::parser::tokenizer::" not in f.path or f.kind != "fn" or "::tests" in f.path:
+            continue
+        if not any((callee(t) or "").split("<")[0].endswith("::parse") for _, t in f.calls()):
+            continue
+        sx = SymEx(f, max_paths=32, facts=facts)
+        try:
+            paths = sx.run(0, stop_at_call=lambda nm, t: nm.split("<")[0].endswith("::parse"))
+        except PathLimit:
+            paths = sx.paths
+        for p in paths:
+            if p.end == "stopcall" and p.events[-1][2]:
+                out.append((f, tokmodel.build(facts, p.events[-1][2][0])))
+                break
+    return out
+
+
+def rule_lexer_model(ck, facts, tier="quick", clauses=("tiling", "no-progress", "munch", "layout"), R="C13.lexer-model"):
+    """the whole tokenizer as a model: tiling, progress, maximal munch of literal tokens, blank-insertion stability"""
+    from ..rules import tokmodel
+
+    ck.rule(R, "the complete lexer (the combinator value handed to `.parse(source)`, with the parser-building functions it calls inlined from their MIR; leaves carry the token kind they produce) is given its PEG meaning and the model is evaluated on every string over a 14-character alphabet up to a length bound: (tiling) the token loop consumes every string completely in steps of at least one character and is followed by `end()`; (no-progress) no repetition has a body that can succeed without consuming (chumsky panics in debug builds and spins in release builds); (munch) every literal token spelled alone, and between blanks, is one token of its own kind (ordered choice: an earlier alternative that is a prefix shadows a later one); (layout) a blank inserted at a boundary between two tokens the model found leaves the non-blank tokens unchanged (digits and dots excepted: `t.0.1` is context-sensitive by design)")
+    try:
+        models = lexer_model(facts)
+    except tokmodel.Unmodelled as e:
+        ck.bad(R, "unmodelled|lexer", "the tokenizer is built with %s, which the combinator model does not cover: tiling of the text by tokens cannot be decided (failing closed)" % e)
+        return
+    ck.require(R, len(models) == 1, "anchor|lexer", "expected one tokenizer function handing a combinator value to `.parse`, found %d" % len(models))
+    if len(models) != 1:
+        return
+    f, tree = models[0]
+    fn = f.short.split("::")[-1]
+    try:
+        step, tail = tokmodel.lexer_parts(tree)
+    except tokmodel.Unmodelled as e:
+        ck.bad(R, "unmodelled|%s" % fn, "%s: %s (failing closed)" % (f.short, e), f.where())
+        return
+    lits = tokmodel.literals(tree)
+    ck.floor(R, "literal_tokens", len(lits), 30)
+    alphabet = " \na_01./*\"|>=~"
+    maxlen = 5 if tier == "thorough" else 4
+    try:
+        res = tokmodel.check(tree, alphabet, maxlen)
+    except tokmodel.Unmodelled as e:
+        ck.bad(R, "unmodelled|%s" % fn, "%s: %s (failing closed)" % (f.short, e), f.where())
+        return
+    ck.setcount("lexer_model_strings", res["strings"])
+    ck.floor(R, "lexer_model_strings", res["strings"], 40000)
+    if "tiling" in clauses:
+        k = "tiling|%s" % fn
+        if tail is None or tail[0] != "end":
+            ck.bad(R, k + "|end", "%s: the token loop is not followed by `end()`: a lexer that stops early would silently drop the rest of the text" % f.short, f.where())
+        elif res["tiling"] is not None:
+            s, pos = res["tiling"]
+            ck.bad(R, k, "%s: on the text %r the token loop stops at offset %d of %d: the tokens do not tile the text (no alternative, not even the error fallback, accepts what follows)" % (f.short, s, pos, len(s)), f.where())
+        else:
+            ck.ok(R, k, {"strings": res["strings"], "alphabet": alphabet, "max_length": maxlen})
+    if "no-progress" in clauses:
+        k = "no-progress|%s" % fn
+        nul = tokmodel.nullable_star_bodies(tree)
+        if res["no_progress"] is not None or nul:
+            w = res["no_progress"][0] if res["no_progress"] else nul[0][1]
+            ck.bad(R, k, "%s: a repetition in the lexer has a body that succeeds without consuming input (witness text %r): chumsky's `repeated()` asserts progress in debug builds and loops forever in release builds — the tokenizer no longer terminates on every text" % (f.short, w), f.where())
+        else:
+            ck.ok(R, k)
+    if "munch" in clauses:
+        bad = None
+        for text, kind in lits:
+            for s, lo in ((text, 0), (" " + text + " ", 1)):
+                toks, pos = tokmodel.tokenize(step, s)
+                got = [(s[a:b], kd) for a, b, kd in toks if a >= lo and b <= lo + len(text)]
+                if got != [(text, kind)] and bad is None:
+                    bad = (text, kind, [(s[a:b], kd) for a, b, kd in toks])
+        k = "munch|%s" % fn
+        if bad:
+            ck.bad(R, k, "%s: the token %r (%s) spelled alone is lexed as %r: an alternative tried earlier in the ordered choice matches a prefix of it, so the token can never be produced" % (f.short, bad[0], bad[1], bad[2]), f.where())
+        else:
+            ck.ok(R, k, {"literals": len(lits)})
+    if "layout" in clauses:
+        k = "layout|%s" % fn
+        if res["layout"] is not None:
+            s, s2, base, got = res["layout"]
+            ck.bad(R, k, "%s: %r is lexed as %r but %r (a blank inserted between two of those tokens) as %r: whitespace between tokens changes the token sequence" % (f.short, s, base, s2, got), f.where())
+        else:
+            ck.ok(R, k)
+
+
 def run(ck, facts, tier):
     pm = ParserModel(facts)
     ck.floor("C13.anchor", "cst_parser_bodies", len(pm.fns), 120)
     rule_comment_lexer(ck, facts, tier)
+    rule_lexer_model(ck, facts, tier, clauses=("tiling", "no-progress"))
     rule_cursor(ck, facts, pm)
     rule_balance(ck, facts, pm)
     rule_root(ck, facts, pm)
     rule_trivia(ck, facts)
     rule_token_extent(ck, facts)
-    ck.not_decided("the tokenizer's tiling of arbitrary text (chumsky spans)")
+    ck.not_decided("the tokenizer's tiling of arbitrary text beyond the combinator model (chumsky's own span arithmetic, multi-byte characters)")
     ck.not_decided("validity of GreenTreeBuilder markers at run time (start_node_at moves a suffix of children)")
